@@ -47,7 +47,11 @@ EXPLANATION = (
     'with), through module/class constants, splices, +, append/extend/+=, conditional arms and expression-bodied helpers. '
     'Guards are decided as branch atoms in the world a counter-hypothesis describes (a representative of the input class is used only '
     'to give the atoms of a guard a truth value; no statement sequence or method body is interpreted, values computed by the code are '
-    'never propagated). Does NOT decide: idempotence beyond the R9 ordering clause, the order of the inherited FullAstVisitor traversal except for its last child '
+    'never propagated). The atom `X.escape() == X.value` of a triple-quoted literal X is read from the shape of StringNode.escape (a regex '
+    'substitution over the undecoded text: true iff the escape regex has no match inside the value - which says nothing about a backslash '
+    'that ends the text). `P.sub(repl, s)` on a compiled pattern (local, memoised module helper) is read as `re.sub(pattern, repl, s)`; a '
+    'traversal method bound at class level to another def or to the closure of a module-level factory called with constants is read as that def. '
+    'Does NOT decide: idempotence beyond the R9 ordering clause, the order of the inherited FullAstVisitor traversal except for its last child '
     '(the full textual order of every field is C02.R3), moves onto a child instead of the visited node (empty array), the five-round fixpoint, line-splitting layout, newline translation of '
     '--check-only (CRLF input with end_of_line=lf compares equal yet --inplace rewrites: depends on file contents), the f-string test '
     'for a triple-quoted f-string that is simplified in the same visit (its value is re-derived by escape() before the test), whether a '
@@ -61,6 +65,7 @@ ASSUMPTIONS = [
     'a comment token runs to the end of its line, so whitespace that holds a comment holds a newline after it',
     'len(ArgumentNode.colons) == len(ArgumentNode.kwargs) (asserted by FullAstVisitor.visit_ArgumentNode)',
     'str methods, len, any/all and the re module behave as documented',
+    'the replacement callback of StringNode.escape never maps an escape sequence to its own spelling (escape() == value iff no match)',
 ]
 TECHNIQUE = ('who-may-write classification by node types resolved from annotations; path enumeration with guard atoms decided three-valued in '
              'counter-hypothesis worlds (truth atoms, canonical trailing-comma atom, declared node classes); CFG must-pass; decision table '
@@ -1034,9 +1039,89 @@ def _fstring_regex(ctx: RuleCtx) -> str:
     raise Undecided('InterpreterBase.evaluate_fstring: substitution regex not found')
 
 
+class _Differs:
+    """The text `X.escape()` denotes when X.value holds an escape sequence: some string different from X.value (see ASSUMPTIONS)."""
+    def __eq__(self, other: object) -> bool:
+        return False
+
+    def __ne__(self, other: object) -> bool:
+        return True
+
+    def __hash__(self) -> int:
+        return 0
+
+
+def _escape_hook(ctx: RuleCtx) -> T.Optional[T.Callable[[ast.Call, T.Any], T.Any]]:
+    """Decides the atom `X.escape()` compared with X.value for the hypothesised triple-quoted literal X, from the shape of
+    StringNode.escape: `REGEX.sub(callback, self.<text>)` with <text> the undecoded text, which for a triple-quoted literal is
+    .value itself (the constructor stores token.value in both and re-derives .value only `if .. not self.is_multiline`).
+    A substitution without a match is the identity (exact); with a match the result differs from the subject (ASSUMPTIONS: an
+    escape sequence never denotes its own spelling).  Whether the regex matches inside the representative is a regex-language fact
+    about a folded constant.  None when StringNode.escape is written in a shape this does not read."""
+    from .c16_sym import helper_expression, UNKNOWN
+    mod = ctx.repo.module(MP)
+    if not (mod.has_func('StringNode.escape') and mod.has_func('StringNode.__init__') and mod.has_func('ElementaryNode.__init__')):
+        return None
+    e = helper_expression(mod.func('StringNode.escape'))
+    if not (isinstance(e, ast.Call) and isinstance(e.func, ast.Attribute) and e.func.attr == 'sub' and len(e.args) == 2 and not e.keywords
+            and norm(e.args[1]) in ('self.raw_value', 'self.value')):
+        return None
+    try:
+        rgx = fold_expr(ctx.repo, mod, e.func.value)
+    except Undecided:
+        return None
+    if not isinstance(rgx, Regex):
+        return None
+    init, base = mod.func('StringNode.__init__'), mod.func('ElementaryNode.__init__')
+
+    def stores(fn: ast.AST, field: str) -> T.List[T.Tuple[ast.Assign, T.List[ast.AST]]]:
+        out = []
+
+        def rec(stmts: T.List[ast.stmt], tests: T.List[ast.AST]) -> None:
+            for st in stmts:
+                if isinstance(st, ast.Assign) and any(norm(t) == f'self.{field}' for t in st.targets):
+                    out.append((st, list(tests)))
+                elif isinstance(st, ast.If):
+                    rec(st.body, tests + [st.test])
+                    rec(st.orelse, tests + [ast.UnaryOp(op=ast.Not(), operand=st.test)])
+                elif not isinstance(st, (ast.Expr, ast.Assign, ast.AnnAssign, ast.Pass)):
+                    out.append((ast.Assign(targets=[], value=ast.Constant(value=None)), []))       # a compound statement that is not read
+        rec(list(getattr(fn, 'body', [])), [])
+        return out
+
+    def conjuncts(t: ast.AST) -> T.List[str]:
+        return [c for v in t.values for c in conjuncts(v)] if isinstance(t, ast.BoolOp) and isinstance(t.op, ast.And) else [norm(t)]
+    tok = next((a.arg for a in init.args.args[1:2]), '')
+    if norm(e.args[1]) == 'self.raw_value':
+        raw = stores(init, 'raw_value')
+        if len(raw) != 1 or raw[0][1] or norm(raw[0][0].value) != f'{tok}.value':
+            return None
+        btok = next((a.arg for a in base.args.args[1:2]), '')
+        bval = stores(base, 'value')
+        if len(bval) != 1 or bval[0][1] or norm(bval[0][0].value) != f'{btok}.value':
+            return None
+    for st, tests in stores(init, 'value'):
+        if not any('not self.is_multiline' in conjuncts(t) for t in tests):
+            return None
+    flags = rgx.flags
+
+    def hook(c: ast.Call, ev: T.Any) -> T.Any:
+        f = c.func
+        if not (isinstance(f, ast.Attribute) and f.attr == 'escape' and not c.args and not c.keywords):
+            return UNKNOWN
+        x = f.value
+        val = ev.ev(ast.Attribute(value=x, attr='value', ctx=ast.Load()))
+        ml = ev.ev(ast.Attribute(value=x, attr='is_multiline', ctx=ast.Load()))
+        if not isinstance(val, str) or ml is not True:
+            return UNKNOWN
+        return _Differs() if re.search(rgx.pattern, val, flags) else val
+    return hook
+
+
 def r2(ctx: RuleCtx) -> None:
     model = NodeModel(ctx.repo)
     hz = _plain_hazards(ctx)
+    esc_hook = _escape_hook(ctx)
     chars = sorted({h.char for h in hz})
     ctx.note(f'hazards of the plain literal form derived from lexer/parser: {[(h.char, h.witness) for h in hz]}')
     if len(chars) < 3:
@@ -1077,7 +1162,7 @@ def r2(ctx: RuleCtx) -> None:
                     for c in chars:
                         bad: T.List[T.Tuple[Hazard, Reach]] = []
                         for h in [h for h in hz if h.char == c]:
-                            rs = creach(ctx, p, fn, w.stmt, Hyp({f'{x}.value': h.witness, f'{x}.is_multiline': True}))
+                            rs = creach(ctx, p, fn, w.stmt, Hyp({f'{x}.value': h.witness, f'{x}.is_multiline': True}), calls=esc_hook)
                             unk = [u for r in rs for u in r.notes.get('unknown', [])]
                             if unk:
                                 raise Undecided(f'{qn}: the guard of the literal rewrite uses a test the evaluator does not understand: {unk[0]}')
@@ -1611,12 +1696,45 @@ def _template(e: ast.AST) -> T.Optional[T.List[T.Tuple[str, str]]]:
     return parts if rec(e) else None
 
 
+_MEMO_DECORATORS = ('lru_cache', 'cache')
+
+
+def _compiled_sub_normal_form(ctx: RuleCtx, p: Pass, call: ast.Call) -> ast.Call:
+    """`X.sub(repl, s, ..)` / `X.subn(..)` where X denotes `re.compile(P)` is `re.sub(P, repl, s, ..)` (the definition of re.sub).
+    X is read through: a direct `re.compile(P)`, a call of an expression-bodied helper of the pass / its module (arguments bound by
+    signature; a module helper may only carry a memoising decorator - transparent for a pure function), locals having been substituted
+    by the caller.  A compile with flags, or anything else, is left as it is (the caller then gives up: Undecided)."""
+    f = call.func
+    if not (isinstance(f, ast.Attribute) and f.attr in ('sub', 'subn') and attr_chain(f.value) != 're'):
+        return call
+    x: ast.AST = f.value
+    for _ in range(4):
+        if not isinstance(x, ast.Call):
+            return call
+        if (call_name(x) or '') == 're.compile':
+            if len(x.args) != 1 or x.keywords or any(isinstance(a, ast.Starred) for a in x.args):
+                return call
+            new = ast.Call(func=ast.Attribute(value=ast.Name(id='re', ctx=ast.Load()), attr=f.attr, ctx=ast.Load()),
+                           args=[x.args[0]] + list(call.args), keywords=list(call.keywords))
+            return ast.fix_missing_locations(new)
+        if isinstance(x.func, ast.Name) and p.mod.has_func(x.func.id):
+            decos = p.mod.func(x.func.id).decorator_list
+            if any((attr_chain(d.func if isinstance(d, ast.Call) else d) or '').split('.')[-1] not in _MEMO_DECORATORS for d in decos):
+                return call
+        nxt = _Inline(ctx, p).resolve(x)
+        if nxt is None:
+            return call
+        x = nxt
+    return call
+
+
 def _transform_ok(ctx: RuleCtx, p: Pass, qn: str, call: ast.Call, loc: str, binds: T.Optional[T.Dict[str, ast.AST]] = None) -> T.Optional[str]:
     """A justified transformer of whitespace content; returns the reason or None (unknown transformer).
     Locals are resolved by their reaching definition at the site first."""
     if binds:
         call = T.cast(ast.Call, subst(call, binds))
         loc = norm(subst(ast.parse(loc, mode='eval').body, binds))
+    call = _compiled_sub_normal_form(ctx, p, call)
     cn = call_name(call) or ''
     inl = _Inline(ctx, p).resolve(call)          # a helper of the class or of the module, arguments bound by signature
     if inl is not None:
@@ -1631,7 +1749,7 @@ def _transform_ok(ctx: RuleCtx, p: Pass, qn: str, call: ast.Call, loc: str, bind
                                                               kwonlyargs=[], kw_defaults=[], defaults=[]), body=[], decorator_list=[])
         from .c16_sym import bind_args
         m = bind_args(fake, call, False) or {}
-        if {'pattern', 'repl', 'string'} <= set(m) and norm(m['string']) == loc:
+        if {'pattern', 'repl', 'string'} <= set(m) and 'flags' not in m and norm(m['string']) == loc:
             pat, rep = _template(m['pattern']), _template(m['repl'])
             if pat is not None and rep is not None and len(pat) == 3 and pat[0] == ('lit', '\\n(') and pat[2] == ('lit', ')*') and pat[1][0] == 'expr' \
                     and '.config.indent' in pat[1][1] and rep and rep[0][0] == 'lit' and rep[0][1].startswith('\n'):
@@ -2515,7 +2633,60 @@ class _PrintOrder:
             for st in c.body:
                 if isinstance(st, ast.FunctionDef) and st.name == name:
                     return m, c, st
+                if isinstance(st, (ast.Assign, ast.AnnAssign)) and st.value is not None:
+                    tgs = st.targets if isinstance(st, ast.Assign) else [st.target]
+                    if any(isinstance(t, ast.Name) and t.id == name for t in tgs):
+                        return m, c, self.bound_method(m, c, name, st.value, 0)
         return None
+
+    def bound_method(self, m: Module, c: ast.ClassDef, name: str, v: ast.AST, depth: int) -> ast.FunctionDef:
+        """The function a class-level binding `name = V` makes a method: another def of the class body (`name = other`), or the
+        closure a module-level factory returns (`name = factory(consts..)`, factory = [docstring] def inner(self, node): ..; return
+        inner): the inner def with the factory's parameters bound in front of its body (`*rest` as the tuple of the surplus
+        arguments).  Anything else is not read."""
+        if depth > 3:
+            raise Undecided(f'{c.name}.{name}: class-level method bindings are chained too deeply')
+        if isinstance(v, ast.Name):
+            for st in c.body:
+                if isinstance(st, ast.FunctionDef) and st.name == v.id:
+                    return st
+                if isinstance(st, ast.Assign) and any(isinstance(t, ast.Name) and t.id == v.id for t in st.targets):
+                    return self.bound_method(m, c, v.id, st.value, depth + 1)
+        if isinstance(v, ast.Call) and isinstance(v.func, ast.Name) and m.has_func(v.func.id):
+            fac = m.func(v.func.id)
+            body = [s for s in fac.body if not (isinstance(s, ast.Expr) and isinstance(s.value, ast.Constant) and isinstance(s.value.value, str))]
+            a = fac.args
+            if len(body) == 2 and isinstance(body[0], ast.FunctionDef) and isinstance(body[1], ast.Return) and isinstance(body[1].value, ast.Name) \
+                    and body[1].value.id == body[0].name and not fac.decorator_list and not body[0].decorator_list and not a.kwarg \
+                    and not any(isinstance(x, ast.Starred) for x in v.args) and all(k.arg is not None for k in v.keywords):
+                inner = body[0]
+                params = [x.arg for x in a.posonlyargs + a.args]
+                vals: T.Dict[str, ast.AST] = dict(zip(params, v.args))
+                surplus = list(v.args[len(params):])
+                if surplus and not a.vararg:
+                    raise Undecided(f'{c.name}.{name}: cannot bind the arguments of `{short(v)}`')
+                if a.vararg:
+                    vals[a.vararg.arg] = ast.Tuple(elts=surplus, ctx=ast.Load())
+                kwonly = [x.arg for x in a.kwonlyargs]
+                for k in v.keywords:
+                    if k.arg in vals or k.arg not in params + kwonly:
+                        raise Undecided(f'{c.name}.{name}: cannot bind the arguments of `{short(v)}`')
+                    vals[T.cast(str, k.arg)] = k.value
+                defaults = dict(zip(reversed(params), reversed(a.defaults)))
+                defaults.update({x.arg: d for x, d in zip(a.kwonlyargs, a.kw_defaults) if d is not None})
+                for prm in params + kwonly:
+                    if prm not in vals:
+                        if prm not in defaults:
+                            raise Undecided(f'{c.name}.{name}: cannot bind the arguments of `{short(v)}`')
+                        vals[prm] = defaults[prm]
+                inner_params = {x.arg for x in inner.args.posonlyargs + inner.args.args + inner.args.kwonlyargs}
+                stores = {n.id for n in ast.walk(inner) if isinstance(n, ast.Name) and isinstance(n.ctx, ast.Store)}
+                if (inner_params | stores) & set(vals) or any(isinstance(n, (ast.Nonlocal, ast.Global)) for n in ast.walk(inner)):
+                    raise Undecided(f'{c.name}.{name}: the closure returned by `{fac.name}` rebinds a parameter of its factory')
+                pre = [ast.Assign(targets=[ast.Name(id=k, ctx=ast.Store())], value=copy.deepcopy(val)) for k, val in vals.items()]
+                fn = ast.FunctionDef(name=name, args=inner.args, body=pre + list(inner.body), decorator_list=[], returns=None, type_comment=None)
+                return T.cast(ast.FunctionDef, ast.fix_missing_locations(fn))
+        raise Undecided(f'{c.name}: the class-level binding `{name} = {short(v)}` is not read as a method')
 
     def arg_value(self, a: ast.AST, env: T.Dict[str, T.Any]) -> T.Any:
         if isinstance(a, ast.Name) and a.id == 'self':
@@ -2645,6 +2816,8 @@ class _PrintOrder:
                     d = ('any', x[1]) if isinstance(x, tuple) and x and x[0] == 'iter' else None
                 elif d is None and isinstance(v, (ast.Tuple, ast.List)):
                     d = ('display', self.elements(v, env))
+                elif d is None and isinstance(v, ast.Constant) and isinstance(v.value, str):
+                    d = ('const', v.value)
                 env[tg.id] = d
             elif tg is not None:
                 self.bind(tg, None, env)
